@@ -414,38 +414,7 @@ def clause_warmup(ctx, dets):
             eps = [g for g in guards(ev) if T.mentions(g, lambda a: a[0] == "call" and a[1] == "abs")]
             ctx.ob("GRD-warmup", cname + ".update", "drift store is under the epsilon-cut test", bool(eps), "", _site_pc_ev(tr, ev))
     # LinearFourRates
-    tr = ctx.trace("LinearFourRates", "update", assume=base, nonnull=NONNULL["LinearFourRates"])
-    specs = [S("ssr > A_burn_in", {"ssr": ssr}), S("m == 0", {"m": atom(("mod", ssr, A("subsample")))})]
-    nm = 0
-    for ev in tr.mutations():
-        if ev.attr not in ("_alarm_states", "_warning_states"):
-            continue
-        if _only_false(ev.value):
-            continue
-        nm += 1
-        missing = q.guard_set_implies(ev, specs)
-        ctx.ob("GRD-warmup", "LinearFourRates.update", "possibly-true store into %s" % ev.attr, not missing,
-               "missing: " + "; ".join(q.short(m, 100) for m in missing), ev)
-    ctx.floor("LFR flag stores", nm, 2)
-    for v, attr in (("drift", "_alarm_states"), ("warning", "_warning_states")):
-        evs = state_stores(tr, v)
-        ctx.ob("ROLE", "LinearFourRates.update", "store of %r exists" % v, len(evs) >= 1, "")
-        for ev in evs:
-            nstores += 1
-            ok = False
-            for g in guards(ev):
-                a = g.single_atom()
-                if a is not None and a[0] == "call" and a[1] == "any":
-                    # the flags read are those of the current index
-                    arg = a[2][0].single_atom()
-                    if arg is not None and arg[0] == "mcall" and arg[2] == "values":
-                        leaves = [l for _c, l in ite_leaves(arg[1])]
-                        ok = bool(leaves)
-                        for l in leaves:
-                            sub = l.single_atom()
-                            if not (sub is not None and sub[0] == "sub" and T.same(sub[2], ssr) and _rooted(sub[1], attr)):
-                                ok = False
-            ctx.ob("GRD-warmup", "LinearFourRates.update", "store %r is under any(%s[ssr].values())" % (v, attr), ok, "", _site_pc_ev(tr, ev))
+    nstores += lfr_cadence(ctx)
     # kdq-tree streaming
     tr = ctx.trace("KdqTreeStreaming", "update", assume=base, nonnull=("X",))
     specs = [S("A__kdqtree is not None"),
@@ -483,6 +452,47 @@ def clause_warmup(ctx, dets):
         ctx.ob("GRD-warmup", "PCACD.update", "fill phase ends when len(test window) == window_size", ok, "", ev)
     # NNDVI / MD3 have no warm-up beyond their reference; MD3's protocol is C19
     ctx.floor("drift/warning stores with warm-up guards", nstores, 20)
+
+
+def lfr_cadence(ctx):
+    """LinearFourRates: flags can become true only after burn_in and on every subsample-th sample of the epoch;
+    the reported state is read from the flags of the current step."""
+    base = {"_drift_state": None}
+    ssr = A("_samples_since_reset") + const(1)
+    nstores = 0
+    tr = ctx.trace("LinearFourRates", "update", assume=base, nonnull=NONNULL["LinearFourRates"])
+    specs = [S("ssr > A_burn_in", {"ssr": ssr}), S("m == 0", {"m": atom(("mod", ssr, A("subsample")))})]
+    nm = 0
+    for ev in tr.mutations():
+        if ev.attr not in ("_alarm_states", "_warning_states"):
+            continue
+        if _only_false(ev.value):
+            continue
+        nm += 1
+        missing = q.guard_set_implies(ev, specs)
+        ctx.ob("GRD-warmup", "LinearFourRates.update", "possibly-true store into %s" % ev.attr, not missing,
+               "missing: " + "; ".join(q.short(m, 100) for m in missing), ev)
+    ctx.floor("LFR flag stores", nm, 2)
+    for v, attr in (("drift", "_alarm_states"), ("warning", "_warning_states")):
+        evs = state_stores(tr, v)
+        ctx.ob("ROLE", "LinearFourRates.update", "store of %r exists" % v, len(evs) >= 1, "")
+        for ev in evs:
+            nstores += 1
+            ok = False
+            for g in guards(ev):
+                a = g.single_atom()
+                if a is not None and a[0] == "call" and a[1] == "any":
+                    # the flags read are those of the current index
+                    arg = a[2][0].single_atom()
+                    if arg is not None and arg[0] == "mcall" and arg[2] == "values":
+                        leaves = [l for _c, l in ite_leaves(arg[1])]
+                        ok = bool(leaves)
+                        for l in leaves:
+                            sub = l.single_atom()
+                            if not (sub is not None and sub[0] == "sub" and T.same(sub[2], ssr) and _rooted(sub[1], attr)):
+                                ok = False
+            ctx.ob("GRD-warmup", "LinearFourRates.update", "store %r is under any(%s[ssr].values())" % (v, attr), ok, "", _site_pc_ev(tr, ev))
+    return nstores
 
 
 def _only_false(v):
@@ -590,10 +600,22 @@ def clause_recs_for(ctx, names):
                         hit = True
             ctx.ob("MC-recs", cname + ".update", "drift store is followed by the end-index update", hit,
                    "every path that stores 'drift' must update retraining_recs[1]", site)
+        if cname != "STEPD":
+            # the first-warning index is that of the EPOCH: only reset() may forget it
+            re_init = [e for e in tr.stores("_retraining_recs")]
+            ctx.ob("WR-recs", cname + ".update", "the recommendation is re-initialised only by reset(), not while the epoch runs", not re_init,
+                   "re-initialising retraining_recs inside update() loses the index at which the detector first entered the warning zone in this epoch",
+                   re_init[0] if re_init else None)
         if cname == "STEPD":
             # the 'else' (no warning/drift) branch re-initialises the recs
             nn = [e for e in tr.stores("_retraining_recs") if _is_none_pair(e.value)]
             ctx.ob("MC-recs", "STEPD.update", "no-alarm branch re-initialises retraining_recs", len(nn) >= 1, "")
+            # every way of returning to state None ends the uninterrupted warning/drift run
+            for e0 in [e for e in tr.stores("_drift_state") if e.value == T.NONE]:
+                s0 = _site_pc_ev(tr, e0)
+                mate = [e for e in nn if (e.pc[: len(s0.pc)] == s0.pc)]
+                ctx.ob("PAIR", "STEPD.update", "every store of state None re-initialises retraining_recs (the run is interrupted)", bool(mate),
+                       "a branch that reports None without clearing the recommendation lets a later alert extend a stale range", s0)
 
 
 def _covered(x, eg):
